@@ -138,6 +138,9 @@ class Spec(PropSpec):
         # Recreate), the removal flushed before or together with the creation, then a crash
         rc = F.recreate_scenarios(rng)
         cases += rc if not q else rng.sample(rc, 120)
+        # torn writes inside / at the end of / across the end of the data-synced contents
+        tc = F.torn_scenarios(rng)
+        cases += tc if not q else rng.sample(tc, 60)
         for _ in range(30 * k):
             c = F.gen_clean_rename(rng, crash=0.12, setup_sync=rng.choice([1, 2]), syncs=0.2)
             c["cfg"]["via"] = "sim"
